@@ -278,6 +278,7 @@ class SimReactor(object):
         self.write_observers = []
         self.connect_observers = []
         self.running = True
+        self.defer_io = False      # True: a local close completes only when the environment says so (sim_complete_close)
         self.choices = []          # sizes of same-instant ready sets > 1 seen
 
     def _trace(self, ev):
@@ -364,7 +365,14 @@ class SimReactor(object):
 
     def ready(self):
         """Everything that may run now: due timers and queued local closes."""
-        return [('timer', d) for d in self.due()] + [('io', x) for x in self._io_pending]
+        return [('timer', d) for d in self.due()] + ([] if self.defer_io else [('io', x) for x in self._io_pending])
+
+    def sim_complete_close(self, idx=0):
+        """(defer_io mode) the write buffer of a connection we are closing drains: connectionLost is delivered"""
+        if idx >= len(self._io_pending):
+            return False
+        self._io_one(self._io_pending[idx])
+        return True
 
     def settle(self, chooser=None):
         """Run everything that is due at the current instant (timers, thread queue, local closes).
